@@ -447,7 +447,7 @@ void fmt_gen_dir(cs_t *cs, fdir_t *d, int kind, int allow_n, int floats, int wid
         w = cs_range(cs, 0, 9);
         if (w < 5) d->prec = -1;
         else if (w < 7) d->prec = (int16_t)cs_range(cs, 0, 40);
-        else if (w < 8) d->prec = (int16_t)cs_range(cs, 100, 260);
+        else if (w < 8) { d->prec = (int16_t)cs_range(cs, 100, 260); if (cs_range(cs, 0, 5) == 0 && d->conv == 's') d->prec = (int16_t)cs_range(cs, 4090, 5000); /* around and above RSIZE_MAX_STR: a precision is a bound whatever its size */ }
         else { d->prec = -2; d->pstar = (int16_t)cs_range(cs, -3, 40); }
     }
     if (strchr("diuxXon", d->conv)) { d->len = (uint8_t)cs_range(cs, 0, 7); { long q = cs_range(cs, 0, 15); if (q == 0) d->len = LEN_BIGL; /* "%Ld": invalid in ISO C, a glibc synonym of ll; the library rejects it */ else if (q == 1) d->len = LEN_BIGZ; else if (q == 2) d->len = LEN_Q; /* two more length modifiers glibc accepts */ } }
